@@ -38,7 +38,9 @@ import (
 	"time"
 
 	"github.com/pinealctx/neptune/stcp"
+	"github.com/pinealctx/neptune/syncx/pipe/q"
 	"github.com/pinealctx/neptune/ulog"
+	"go.uber.org/zap"
 	"go.uber.org/zap/zapcore"
 
 	"verif/harness/internal/qx"
@@ -47,7 +49,7 @@ import (
 
 const budget = 20 * time.Second
 
-var quiet *ulog.Logger
+var quiet, loud *ulog.Logger
 
 // opts: manager / server options; drawn by the plan's init line (TLC) or by the seeded generator
 type opts struct {
@@ -180,6 +182,42 @@ var (
 	errDeadline    = errors.New("scripted: set deadline failed")
 )
 
+// sentinels: the exported errors of the packages the session code touches (io, net, os, the send
+// queue), plain and wrapped; every one can come out of the connection's Read / Write or out of the
+// handler ("c:" / "h:" + name in the trace).
+var sentinels = map[string]error{
+	"unexp": io.ErrUnexpectedEOF, "pipe": io.ErrClosedPipe, "short": io.ErrShortWrite, "nobuf": io.ErrShortBuffer,
+	"netclosed": net.ErrClosed, "deadline": os.ErrDeadlineExceeded, "osclosed": os.ErrClosed,
+	"qclosed": q.ErrClosed, "qfull": q.ErrReqQFull, "qsync": q.ErrSync, "eof": io.EOF,
+}
+var sentinelNames []string
+
+func init() {
+	for k, e := range sentinels {
+		sentinels["w:"+k] = fmt.Errorf("wrapped by the transport: %w", e)
+	}
+	for k := range sentinels {
+		sentinelNames = append(sentinelNames, k)
+	}
+	sort.Strings(sentinelNames)
+}
+
+// errOf maps an error kind of a command to the error the connection returns.
+func errOf(kind string) error {
+	switch kind {
+	case "eof":
+		return io.EOF
+	case "timeout":
+		return timeoutErr{}
+	case "temp":
+		return tempErr{}
+	}
+	if e, ok := sentinels[strings.TrimPrefix(kind, "c:")]; ok {
+		return e
+	}
+	return errIO
+}
+
 type cmd struct {
 	kind string // read: data eof err timeout; write: ok err timeout
 	b    byte
@@ -236,14 +274,8 @@ func (c *sconn) Read(p []byte) (int, error) {
 		case "data":
 			p[0] = m.b
 			return 1, nil
-		case "eof":
-			return 0, io.EOF
-		case "timeout":
-			return 0, timeoutErr{}
-		case "temp":
-			return 0, tempErr{}
 		}
-		return 0, errIO
+		return 0, errOf(m.kind)
 	case <-c.closedCh:
 		c.mu.Lock()
 		c.pendR = false
@@ -274,12 +306,8 @@ func (c *sconn) Write(p []byte) (int, error) {
 		switch m.kind {
 		case "ok":
 			n = len(p)
-		case "timeout":
-			n, err = m.n, timeoutErr{}
-		case "temp":
-			n, err = m.n, tempErr{}
 		default:
-			n, err = m.n, errIO
+			n, err = m.n, errOf(m.kind)
 		}
 		c.peer = append(c.peer, p[:n]...)
 		c.mu.Unlock()
@@ -362,12 +390,16 @@ type ssn struct {
 	usedR   bool // ports used since the last sync
 	usedW   bool
 	drained bool
+	vkind   string // dynamic kind of the value given to Session.Set
 	// re-entrant use: the handler's own calls into its session
 	reentDone chan struct{} // the Read handler has made and recorded its call
 	exitSend  bool          // OnExit calls Send
 	exitClose bool          // OnExit calls Close
 	// every slice handed to Send, as handed over, and a private copy: Send has no business writing to it
 	sent, sentCopy [][]byte
+	accBytes       int   // bytes accepted from the driver's Sends
+	hBytes         int32 // bytes accepted from the handler's own Sends
+	scribbled      int   // slices of sent that were overwritten after delivery
 }
 
 type world struct {
@@ -403,11 +435,23 @@ func (h *shandler) Read(s *stcp.Session) error {
 	x := h.find(s)
 	select {
 	case x.reg <- s:
+		if h.wd.useDo {
+			setValue(s, x.vkind) // through SessionMgr.Do the handler is the first to see the session
+		}
 	default:
 	}
 	var b [1]byte
+	if x.id%2 == 0 {
+		// a zero-length read asks for nothing: it succeeds without touching the connection
+		if err := s.Read(b[:0]); err != nil {
+			return err
+		}
+	}
 	if err := s.Read(b[:]); err != nil {
 		return err
+	}
+	if i := int(b[0]) - 0x80; i >= 0 && i < len(sentinelNames) {
+		return sentinels[sentinelNames[i]]
 	}
 	switch b[0] {
 	case 'P':
@@ -437,6 +481,9 @@ func (h *shandler) reSend(x *ssn, s *stcp.Session, bs []byte) {
 	r := "ok"
 	if err := s.Send(bs); err != nil {
 		r = "err"
+	}
+	if r == "ok" {
+		atomic.AddInt32(&x.hBytes, int32(len(bs)))
 	}
 	h.wd.fire(tr.E{"op": "send", "s": x.id, "b": tr.Ints(bs), "r": r})
 }
@@ -470,16 +517,29 @@ func newWorld(w *tr.W, rng *rand.Rand, o opts, n int, own, useDo, empty bool, sr
 	wd.x.Budget = budget
 	h := &shandler{wd}
 	if wd.own {
-		wd.mgr = stcp.NewSessionMgr(deadHandler{wd}, o.mopts()...)
+		if rng.Intn(2) == 0 {
+			wd.mgr = stcp.NewSessionMgr(nil, o.mopts()...) // no manager handler at all: sessions bring their own
+		} else {
+			wd.mgr = stcp.NewSessionMgr(deadHandler{wd}, o.mopts()...)
+		}
 	} else {
 		wd.mgr = stcp.NewSessionMgr(h, o.mopts()...)
 	}
-	wd.mgr.SetLogger(quiet)
+	if rng.Intn(2) == 0 {
+		wd.mgr.SetLogger(loud) // every log statement is evaluated and rendered (into /dev/null)
+	} else {
+		wd.mgr.SetLogger(quiet)
+	}
 	for i := 1; i <= n; i++ {
 		wd.ss = append(wd.ss, &ssn{id: i, conn: newConn(fmt.Sprintf("s%d", i)), st: "new",
 			reg: make(chan *stcp.Session, 1), reentDone: make(chan struct{}, 4)})
 	}
 	wd.reent = rng.Intn(4) == 0
+	vk := make([]string, n)
+	for i, x := range wd.ss {
+		x.vkind = valueKinds[rng.Intn(len(valueKinds))]
+		vk[i] = x.vkind
+	}
 	for _, x := range wd.ss {
 		if wd.reent {
 			x.exitSend, x.exitClose = rng.Intn(2) == 0, rng.Intn(2) == 0
@@ -491,7 +551,7 @@ func newWorld(w *tr.W, rng *rand.Rand, o opts, n int, own, useDo, empty bool, sr
 		x.conn.closeErr = rng.Intn(3) == 0
 		cerr[i] = x.conn.closeErr
 	}
-	emit(w, tr.E{"ev": "reset", "maxc": 100000, "free": false, "src": src, "own": wd.own, "do": useDo, "closeerr": cerr, "wt": o.Wt, "rt": o.Rt, "reent": wd.reent})
+	emit(w, tr.E{"ev": "reset", "maxc": 100000, "free": false, "src": src, "own": wd.own, "do": useDo, "closeerr": cerr, "wt": o.Wt, "rt": o.Rt, "reent": wd.reent, "vkinds": vk})
 	return wd
 }
 
@@ -552,7 +612,18 @@ func (wd *world) sync() {
 		}
 		peer := tr.Ints(c.peer)
 		closed := c.closed
+		npeer := len(c.peer)
 		c.mu.Unlock()
+		if npeer == x.accBytes+int(atomic.LoadInt32(&x.hBytes)) && rngScribble(x) {
+			// everything the driver handed to Send has reached the peer: the caller owns its slices
+			// again and overwrites them; nothing observed later may change because of that
+			for i := x.scribbled; i < len(x.sent); i++ {
+				for j := range x.sent[i] {
+					x.sent[i][j], x.sentCopy[i][j] = 0xDD, 0xDD
+				}
+			}
+			x.scribbled = len(x.sent)
+		}
 		x.usedR, x.usedW = false, false
 		g := 0
 		if x.st == "run" {
@@ -567,6 +638,8 @@ func (wd *world) sync() {
 	emit(wd.w, tr.E{"ev": "sync", "obs": tr.E{"count": int(wd.mgr.ConnCount()), "ss": obs}})
 	atomic.StoreInt32(&wd.dirty, 0)
 }
+
+func rngScribble(x *ssn) bool { return x.id%2 == 1 }
 
 // inmut: no slice handed to Send has been written to
 func (x *ssn) inmut() bool {
@@ -611,6 +684,47 @@ func (wd *world) ensure(x *ssn) {
 		if wd.own {
 			x.sess.UpdateHandler(&shandler{wd})
 		}
+		setValue(x.sess, x.vkind)
+	}
+}
+
+// Session.Set takes any value (it only feeds the log fields): the dynamic kind is drawn too.
+type kz struct{ name string }
+
+func (k *kz) KeyZaps(ext ...zap.Field) []zap.Field { return append(ext, zap.String("who", k.name)) } // nil receiver: panics
+type kzSafe struct{ name string }
+
+func (k *kzSafe) KeyZaps(ext ...zap.Field) []zap.Field {
+	if k == nil {
+		return ext
+	}
+	return append(ext, zap.String("who", k.name))
+}
+
+var valueKinds = []string{"none", "int", "string", "struct", "ptr", "slice", "map", "func", "keyzap", "nilkeyzap", "nilsafe"}
+
+func setValue(s *stcp.Session, kind string) {
+	switch kind {
+	case "int":
+		s.Set(42)
+	case "string":
+		s.Set("user-42")
+	case "struct":
+		s.Set(struct{ A, B int }{1, 2})
+	case "ptr":
+		s.Set(&struct{ A int }{7})
+	case "slice":
+		s.Set([]int{1, 2, 3})
+	case "map":
+		s.Set(map[string]int{"a": 1})
+	case "func":
+		s.Set(func() {})
+	case "keyzap":
+		s.Set(&kz{"k"})
+	case "nilkeyzap":
+		s.Set((*kz)(nil)) // typed nil: the interface is not nil, the method call panics inside the log call
+	case "nilsafe":
+		s.Set((*kzSafe)(nil))
 	}
 }
 
@@ -743,14 +857,27 @@ func (wd *world) step1(a act, rng *rand.Rand) bool {
 		for i, v := range a.B {
 			bs[i] = byte(v)
 		}
+		if len(bs) == 0 && rng.Intn(2) == 0 {
+			bs = nil // nil and empty are both "nothing to send"
+		}
 		x.sent, x.sentCopy = append(x.sent, bs), append(x.sentCopy, append([]byte{}, bs...))
-		r, sess := "ok", wd.session(x)
-		guard(wd.w, "Send", func() {
-			if err := sess.Send(bs); err != nil {
-				r = "err"
+		sess := wd.session(x)
+		times := 1
+		if rng.Intn(12) == 0 {
+			times = 2 // the very same slice handed over twice
+		}
+		for ; times > 0; times-- {
+			r := "ok"
+			guard(wd.w, "Send", func() {
+				if err := sess.Send(bs); err != nil {
+					r = "err"
+				}
+			})
+			wd.fire(tr.E{"op": "send", "s": a.S, "b": tr.Ints(bs), "r": r})
+			if r == "ok" {
+				x.accBytes += len(bs)
 			}
-		})
-		wd.fire(tr.E{"op": "send", "s": a.S, "b": tr.Ints(bs), "r": r})
+		}
 	case "close":
 		if !wd.reachable(x) {
 			return false
@@ -778,7 +905,7 @@ func (wd *world) step1(a act, rng *rand.Rand) bool {
 			if n >= len(x.pendW) {
 				n = len(x.pendW) - 1
 			}
-			kind := []string{"err", "timeout", "temp"}[rng.Intn(3)]
+			kind := []string{"err", "timeout", "temp", "c:" + sentinelNames[rng.Intn(len(sentinelNames))]}[rng.Intn(4)]
 			if !c.command(c.wcmd, cmd{kind: kind, n: n}) {
 				return false
 			}
@@ -815,7 +942,17 @@ func (wd *world) step1(a act, rng *rand.Rand) bool {
 			case "eof", "err", "timeout", "temp":
 				m.kind = a.K
 			default:
-				return false
+				name := strings.TrimPrefix(strings.TrimPrefix(a.K, "c:"), "h:")
+				i := sort.SearchStrings(sentinelNames, name)
+				if i >= len(sentinelNames) || sentinelNames[i] != name {
+					return false
+				}
+				if strings.HasPrefix(a.K, "h:") {
+					m.b = byte(0x80 + i) // the handler returns this sentinel itself
+				} else {
+					m.kind = "c:" + name
+					rec["k"] = m.kind
+				}
 			}
 		}
 		if !c.command(c.rcmd, m) {
@@ -965,7 +1102,8 @@ func randPlan(rng *rand.Rand, n, steps int, empty bool) []act {
 		case x < 86:
 			a = act{Op: "wfault", N: rng.Intn(4)}
 		case x < 95:
-			a = act{Op: "rfault", K: []string{"eof", "err", "timeout", "herr", "dl", "temp"}[rng.Intn(6)]}
+			a = act{Op: "rfault", K: []string{"eof", "err", "timeout", "herr", "dl", "temp",
+				"c:" + sentinelNames[rng.Intn(len(sentinelNames))], "h:" + sentinelNames[rng.Intn(len(sentinelNames))]}[rng.Intn(8)]}
 		case x < 97:
 			a = act{Op: "wdl"}
 		default:
@@ -1501,6 +1639,36 @@ func (fw *fworld) stopServer() {
 	}
 }
 
+// restart: the same Server object is stopped and started again on the same address with another
+// connection limit, while the manager (its count, its live sessions) carries over: the new limit is
+// the one that holds from now on.
+func (fw *fworld) restart(newMax int) {
+	fw.sync()
+	if fw.failed {
+		return
+	}
+	fw.stopServer()
+	eh := fw.srv.Start(stcp.WithMaxConn(int32(newMax)), stcp.WithLogger(quiet))
+	ok := false
+	for i := 0; i < 50000 && !ok; i++ {
+		select {
+		case <-eh:
+			i = 1 << 30 // could not listen again (address taken meanwhile): the world ends here
+		default:
+			if ok = listening(fw.addr); !ok {
+				time.Sleep(100 * time.Microsecond)
+			}
+		}
+	}
+	if !ok {
+		return // stays stopped
+	}
+	fw.eh, fw.stopped, fw.maxc = eh, false, newMax
+	atomic.StoreInt32(&fw.h.maxseen, fw.mgr.ConnCount()) // the extremes are per configuration
+	atomic.StoreInt32(&fw.h.minseen, fw.mgr.ConnCount())
+	emit(fw.w, tr.E{"ev": "reconf", "maxc": newMax})
+}
+
 // finish ends what is alive.  Orders: the server is stopped before or after its sessions; the
 // sessions are closed one by one or all at the same moment (exits racing on the shared count).
 func (fw *fworld) finish(rng *rand.Rand) {
@@ -1553,8 +1721,13 @@ func (fw *fworld) finish(rng *rand.Rand) {
 // once, so that the close happens while the kernel still holds what the (slower) reader has not
 // taken yet; the client reads to the end of the stream, however it ends, and reports which blocks
 // arrived intact and in which order.
-func runBulk(w *tr.W, rng *rand.Rand, o opts) bool {
-	const blk = 128 << 10
+func runBulk(w *tr.W, rng *rand.Rand, o opts, idx int) bool {
+	// block (= payload unit) sizes: 128 KB for the kernel-queue scenario, and sizes at and next to
+	// powers of two (page, 64 KB) so that payload lengths are k*2^j and k*2^j +- 1
+	blk := 128 << 10
+	if idx >= 0 {
+		blk = []int{4096, 65537, 4095, 4097, 65535, 65536, 1023, 1025, 128 << 10}[idx%9]
+	}
 	fw := newFree(w, 1+rng.Intn(3), o, "free-bulk")
 	fw.ccfg = clientCfg{block: blk, chunk: 64 << 10, slow: time.Millisecond}
 	fw.dial(1)
@@ -1564,7 +1737,10 @@ func runBulk(w *tr.W, rng *rand.Rand, o opts) bool {
 		return !fw.failed
 	}
 	x := fw.ss[0]
-	nb := 48 + rng.Intn(17) // 6 .. 8 MB
+	nb := 48 + rng.Intn(17) // 6 .. 8 MB with 128 KB blocks
+	if blk < 128<<10 {
+		nb = 60 + rng.Intn(40)
+	}
 	for k := 1; k <= nb; {
 		n := 1 + rng.Intn(3)
 		if k+n-1 > nb {
@@ -1700,6 +1876,8 @@ func runFree(w *tr.W, rng *rand.Rand, idx int) bool {
 	for i := 0; i < steps && len(fw.ss) < 6 && !fw.failed; i++ {
 		al := fw.alive()
 		switch x := rng.Intn(100); {
+		case (x < 25 || len(al) == 0) && fw.stopped:
+			i = steps // nothing to dial into any more
 		case x < 25 || len(al) == 0:
 			k := 1
 			if rng.Intn(3) == 0 {
@@ -1716,6 +1894,8 @@ func runFree(w *tr.W, rng *rand.Rand, idx int) bool {
 			s := al[rng.Intn(len(al))]
 			fw.fire(tr.E{"op": "rok", "s": s.id})
 			s.cl.write([]byte{'x'})
+		case x < 76 && !fw.stopped:
+			fw.restart(rng.Intn(4)) // 0 .. 3: below, at or above the number of live sessions
 		default:
 			how := []string{"close", "close", "close", "peer", "panic", "herr"}[rng.Intn(6)]
 			fw.end(al[rng.Intn(len(al))], how)
@@ -1743,6 +1923,14 @@ func main() {
 	rng := rand.New(rand.NewSource(*seed))
 	quiet = ulog.NewSimpleLogger("error")
 	quiet.SetLevel(zapcore.FatalLevel + 1)
+	if devnull, err := os.OpenFile(os.DevNull, os.O_WRONLY, 0); err == nil {
+		stdout := os.Stdout
+		os.Stdout = devnull // NewSimpleLogger writes to whatever os.Stdout is when it is made
+		loud = ulog.NewSimpleLogger("debug")
+		os.Stdout = stdout
+	} else {
+		loud = quiet
+	}
 
 	w := tr.Create(*out)
 	fw := tr.Create(*free) // all files exist even if the run ends early on a stuck observation
@@ -1786,6 +1974,21 @@ func main() {
 	for done := 0; done < *nrace; done += 128 {
 		runRace(rw, rng, rx, 128)
 	}
+	// long runs around integer widths (same trace file, one run per trace)
+	for _, n := range []int{255, 256, 257, 65535, 65536, 65537} {
+		if *nrace > 0 {
+			runSends(rw, rx, n, false)
+		}
+	}
+	alive := []int{127, 128, 129, 255, 256, 257}
+	if *nrace >= 50000 { // thorough
+		alive = append(alive, 32767, 32768, 32769, 65536)
+	}
+	for _, n := range alive {
+		if *nrace > 0 {
+			runAlive(rw, rng, rx, n)
+		}
+	}
 	rw.Close()
 	ok := true
 	for i := 0; i < *nfree && ok; i++ {
@@ -1804,7 +2007,7 @@ func main() {
 		bulk = []opts{{Wt: 400, Rt: 20000}, {Wt: dflt, Rt: dflt}, {Wt: 1000, Rt: 30000}, {Wt: 2500, Rt: 20000}}
 	}
 	for i := 0; i < *nbulk && ok; i++ {
-		ok = runBulk(fw, rng, bulk[i%len(bulk)])
+		ok = runBulk(fw, rng, bulk[i%len(bulk)], i-len(bulk)) // first one 128 KB world per write timeout
 	}
 	fw.Close()
 	fmt.Printf("scripted_events=%d free_events=%d\n", w.N(), fw.N())
